@@ -27,8 +27,11 @@ def plan(tier, seed):
         chunks, pops = 8, 2
     else:
         dates, chunks, pops = ds, 8, 2
-    return [dict(date=str(d), k=k, chunk=c, chunks=chunks, seed=seed, tier=tier)
-            for d in dates for k in range(pops) for c in range(chunks)]
+    items = [dict(date=str(d), k=k, chunk=c, chunks=chunks, seed=seed, tier=tier)
+             for d in dates for k in range(pops) for c in range(chunks)]
+    hist = [datetime.date(2002, 7, 1), datetime.date(2009, 7, 1)] if tier == "quick" else [datetime.date(y, 7, 1) for y in range(1996, 2015)]
+    items += [dict(date=str(d), k=0, chunk=c, chunks=4, seed=seed, tier=tier, historical=True) for d in hist for c in range(4)]
+    return items
 
 
 def _eq(a, b):
@@ -51,7 +54,9 @@ def run_item(item):
     params, functions = env.environment(d)
     df = popgen.population(prng, d, n_hh=6, params=params)
     df = df.iloc[prng.permutation(len(df))].reset_index(drop=True)
-    S0, nodes, roots, dag, fn = env.trace(df, params, functions)
+    TARGETS = env.feasible_targets(functions, list(df.columns), data=df, params=params,
+                                   candidates=[*env.DEFAULT_TARGETS, "zu_verst_eink_y_sn", "vorsorgeaufw_y_sn"]) if item.get("historical") else None
+    S0, nodes, roots, dag, fn = env.trace(df, params, functions, TARGETS)
     n = len(df)
     res = dict(date=item["date"], pop=popgen.digest(df), runs=0, violations=[], target_sets=[],
                columns_compared=0, kinds={})
@@ -99,6 +104,10 @@ def run_item(item):
     for _ in range(4 if item["tier"] == "quick" else 10):
         size = int(rng.integers(2, 41))
         run([nodes[i] for i in rng.choice(len(nodes), size, replace=False)], "subset")
+    # pairs: a node together with one other node (side effects of one target's preparation on another)
+    for _ in range(6 if item["tier"] == "quick" else 20):
+        a, b = (nodes[i] for i in rng.choice(len(nodes), 2, replace=False))
+        run([a, b], "pair")
     # nodes that depend on parameters only
     import inspect
     ponly = [t for t in nodes if all(a.endswith("_params") for a in inspect.signature(fn[t]).parameters)]
@@ -117,6 +126,8 @@ def run_item(item):
         t = f"{x}_{lvl}"
         if t in fn or t in df.columns:
             continue
+        if f"{lvl}_id" not in S0.columns:
+            continue  # (historical dates) the grouping itself is not computable there
         o1, _ = run([t], "auto_sum_alone", expect_cols=True)
         others = [nodes[i] for i in rng.choice(len(nodes), 5, replace=False)]
         o2, _ = run([t, *others], "auto_sum_in_set")
@@ -211,7 +222,7 @@ def summarize(results, tier, seed):
         for k, v in r["kinds"].items():
             kinds[k] = kinds.get(k, 0) + v
     inconclusive = []
-    for need in ("singleton", "subset", "params_only", "auto_sum_alone", "debug", "extra_columns"):
+    for need in ("singleton", "subset", "pair", "params_only", "auto_sum_alone", "debug", "extra_columns"):
         if kinds.get(need, 0) == 0:
             inconclusive.append(f"no run of kind {need}")
     cov = dict(
@@ -223,6 +234,7 @@ def summarize(results, tier, seed):
         runs_by_kind=kinds,
         columns_compared=sum(r["columns_compared"] for r in ok),
         dates=sorted({r["date"] for r in ok}),
+        historical_dates=sorted({r["date"] for r in ok if r["_item"].get("historical")}),
         samples=[r["sample"] for r in ok[:2]],
     )
     return dict(coverage=cov, violations=viol, inconclusive=inconclusive,
